@@ -93,26 +93,26 @@ check("C17", "A", "exploration",
 
 # Extensions added after the seeded rounds (appended to the texts above; the technique gets the part in the first slot).
 MORE = {
- "C01": ("", "Also: size-like tags that disagree with the byte lengths, entries behind the immutable region, assets with appended bytes; the written bytes must not depend on the sink (plain and vectored partial writes). Unknown data-type numbers among valid entries; the path-based entry points (open on a regular file and on a named pipe, write_file over existing longer files) on assets and corpus. Headers without index entries but with a data section; every truncation of a region-less package. Round 6: padding between the headers removed / shortened / lengthened, every selection of sections on its own (no lead), clone writes the same bytes. Round 7: the geometry of one entry (offset and count to and beyond the edges of the data section, final NUL removed). Round 8: n index entries / items for n around 16, 256, 4096, 65 536."),
- "C02": ("; explicit-state exploration of operation sequences on one live Package (aged object versus freshly parsed object)", "Also: signature index sorted/reversed x the verifier's algorithm() answer (1.58 M shapes); recorded digests truncated / empty / extended; every sequence of <= 4 (5) operations {verify, clone, assignments to the public fields} on a long-lived object must answer like a freshly parsed object of the same bytes. GPG tag axis (absent / binary). Valid OpenPGP signatures made with the real secret keys in six subpacket layouts, by primary key or signing subkey, covering the header / the empty message / a changed header, verified with each real public key (found and fixed: subkey signature over the empty message with a repeated issuer verified for any data). Round 6: payload digest absent (judged by the flips). Round 7: rejections reported with three kinds of error; payload digest entries edited before the library signs (algorithm numbers 1, 2, 9, 10, 11, 12, 14, 0, 99) x every payload bit flip."),
- "C03": ("; operation sequences on one live Package (aged versus fresh)", "Also: index orders reversed/rotated, digest length variants (truncated / empty / extended), aged-versus-fresh operation sequences judged on verify_digests. Two-item algorithm arrays ([8,8], [10,8], [8,10]). Tags that are none of the four digests (alternate payload digest, unknown compressor) must not change the verdict; a wrong digest must not pass because its entry has an unusual type. Round 6: a base with an entry of every index type; verify_signature must fail whenever the digests fail. Round 7: one digest replaced by every digest of the package's own bytes (six algorithms x four regions, both cases) and by the correct value changed alike in every pair of positions."),
- "C04": ("", "Also: header-declared file sizes that disagree with the archive; every oversized allocation is attributed to its innermost rpm:: call site (known finding: pgp packet parser reached from Verifier::parse_signature, thorough tier). Region-trailer boundary sweep (6 000 inputs); a two-locale i18n seed mutated in the default environment and in worker processes under a German locale. crc-flavoured cpio entries (byte sums passing 2^31 / 2^32), runs of 3 000 and 200 000 entries. An i18n table whose C locale is not first; every file declared huge with the package-level size tags missing. Round 6: files() iterator protocol (size_hint / count / collect); i18n seed with C first. Round 8: every word of the vocabulary of the tags that select a code path x three kinds of payload bytes."),
- "C05": ("", "Also: index entries reversed/rotated, a tag's entry behind the immutable region, HEADERI18NTABLE variants, upper-case hex digests; two deviations in both tiers. Lead fields that contradict the header; the i18n-bearing group a second time in worker processes under a German locale; three deviations in the thorough tier (24.7 M headers). Contradictory entries (digest length vs algorithm) may give an error but never a value the header does not store. Round 7: file digests of the right length that are not hexadecimal (error or stored text). Round 8: 14 valid UTF-8 texts in each of 23 string-bearing tags of a header that declares its encoding (a rejection is a violation); lists of 255-257 members; unread look-alike tags."),
- "C06": ("", "Also: user/group owners with hand-given recommends, zoned chrono source dates, every configuration with files or a signature additionally under an interposed early wall clock. Every Dependency constructor; kernel-backed (stat size 0) and symlinked sources. Setters called twice drive the real builder through the same call sequence; sources named relative to the working directory. Special permission bits inherited from sources, link targets on non-links, capabilities on non-regular entries, dependency names colliding with generated ones (~190 setter calls). Round 6: verify flags, multi-clause capability texts with odd white space, scriptlets without a body. Round 7: every permission value 0..07777 for three entry kinds; each dependency kind x 14 constructors x 8 colliding names; a description holding every Unicode scalar value. Round 8: Dependency struct literals with every single flag bit; builders started from Default."),
- "C07": ("", "Also: file sets whose paths are prefixes/suffixes/case variants of one another; zstd levels 20-22. Dot-prefixed twins; kernel-backed and symlinked sources. 255 / 256 / 257 / 1000 (thorough 65 536, 65 537) files; relative './.hidden' spellings. Names that look like archive markers (TRAILER!!!); typed entries built from sources with content; destinations not in their shortest form. Round 6: upper-case hexadecimal foreign archives; size ladder 2^13..2^20 (2^24); payloads of 2^27 + 4096 bytes (thorough 2^26..2^30, five compressors). Round 7: a source package with bare, dot-leading entry names; ghost files whose path ends with the path of an archived file. Round 8: files() through nth / skip / step_by / last / count / size_hint agrees with the plain loop."),
+ "C01": ("", "Also: size-like tags that disagree with the byte lengths, entries behind the immutable region, assets with appended bytes; the written bytes must not depend on the sink (plain and vectored partial writes). Unknown data-type numbers among valid entries; the path-based entry points (open on a regular file and on a named pipe, write_file over existing longer files) on assets and corpus. Headers without index entries but with a data section; every truncation of a region-less package. Round 6: padding between the headers removed / shortened / lengthened, every selection of sections on its own (no lead), clone writes the same bytes. Round 7: the geometry of one entry (offset and count to and beyond the edges of the data section, final NUL removed). Round 8: n index entries / items for n around 16, 256, 4096, 65 536. Round 9: every entry count from 0 to 1100."),
+ "C02": ("; explicit-state exploration of operation sequences on one live Package (aged object versus freshly parsed object)", "Also: signature index sorted/reversed x the verifier's algorithm() answer (1.58 M shapes); recorded digests truncated / empty / extended; every sequence of <= 4 (5) operations {verify, clone, assignments to the public fields} on a long-lived object must answer like a freshly parsed object of the same bytes. GPG tag axis (absent / binary). Valid OpenPGP signatures made with the real secret keys in six subpacket layouts, by primary key or signing subkey, covering the header / the empty message / a changed header, verified with each real public key (found and fixed: subkey signature over the empty message with a repeated issuer verified for any data). Round 6: payload digest absent (judged by the flips). Round 7: rejections reported with three kinds of error; payload digest entries edited before the library signs (algorithm numbers 1, 2, 9, 10, 11, 12, 14, 0, 99) x every payload bit flip. Round 9: well-formed OpenPGP signature packets of other kinds (certification, subkey binding, standalone) as items."),
+ "C03": ("; operation sequences on one live Package (aged versus fresh)", "Also: index orders reversed/rotated, digest length variants (truncated / empty / extended), aged-versus-fresh operation sequences judged on verify_digests. Two-item algorithm arrays ([8,8], [10,8], [8,10]). Tags that are none of the four digests (alternate payload digest, unknown compressor) must not change the verdict; a wrong digest must not pass because its entry has an unusual type. Round 6: a base with an entry of every index type; verify_signature must fail whenever the digests fail. Round 7: one digest replaced by every digest of the package's own bytes (six algorithms x four regions, both cases) and by the correct value changed alike in every pair of positions. Round 9: signature headers that record nothing x payload digest correct / wrong / absent x three algorithm numbers."),
+ "C04": ("", "Also: header-declared file sizes that disagree with the archive; every oversized allocation is attributed to its innermost rpm:: call site (known finding: pgp packet parser reached from Verifier::parse_signature, thorough tier). Region-trailer boundary sweep (6 000 inputs); a two-locale i18n seed mutated in the default environment and in worker processes under a German locale. crc-flavoured cpio entries (byte sums passing 2^31 / 2^32), runs of 3 000 and 200 000 entries. An i18n table whose C locale is not first; every file declared huge with the package-level size tags missing. Round 6: files() iterator protocol (size_hint / count / collect); i18n seed with C first. Round 8: every word of the vocabulary of the tags that select a code path x three kinds of payload bytes. Round 9: cpio name fields of NUL bytes; payload digest entries with no, two or mistyped items behind recomputed header digests."),
+ "C05": ("", "Also: index entries reversed/rotated, a tag's entry behind the immutable region, HEADERI18NTABLE variants, upper-case hex digests; two deviations in both tiers. Lead fields that contradict the header; the i18n-bearing group a second time in worker processes under a German locale; three deviations in the thorough tier (24.7 M headers). Contradictory entries (digest length vs algorithm) may give an error but never a value the header does not store. Round 7: file digests of the right length that are not hexadecimal (error or stored text). Round 8: 14 valid UTF-8 texts in each of 23 string-bearing tags of a header that declares its encoding (a rejection is a violation); lists of 255-257 members; unread look-alike tags. Round 9: changelog entries that repeat their neighbour."),
+ "C06": ("", "Also: user/group owners with hand-given recommends, zoned chrono source dates, every configuration with files or a signature additionally under an interposed early wall clock. Every Dependency constructor; kernel-backed (stat size 0) and symlinked sources. Setters called twice drive the real builder through the same call sequence; sources named relative to the working directory. Special permission bits inherited from sources, link targets on non-links, capabilities on non-regular entries, dependency names colliding with generated ones (~190 setter calls). Round 6: verify flags, multi-clause capability texts with odd white space, scriptlets without a body. Round 7: every permission value 0..07777 for three entry kinds; each dependency kind x 14 constructors x 8 colliding names; a description holding every Unicode scalar value. Round 8: Dependency struct literals with every single flag bit; builders started from Default. Round 9: every subset of the scriptlet flag bits (Some(empty) is not None); names with runs of dots."),
+ "C07": ("", "Also: file sets whose paths are prefixes/suffixes/case variants of one another; zstd levels 20-22. Dot-prefixed twins; kernel-backed and symlinked sources. 255 / 256 / 257 / 1000 (thorough 65 536, 65 537) files; relative './.hidden' spellings. Names that look like archive markers (TRAILER!!!); typed entries built from sources with content; destinations not in their shortest form. Round 6: upper-case hexadecimal foreign archives; size ladder 2^13..2^20 (2^24); payloads of 2^27 + 4096 bytes (thorough 2^26..2^30, five compressors). Round 7: a source package with bare, dot-leading entry names; ghost files whose path ends with the path of an archived file. Round 8: files() through nth / skip / step_by / last / count / size_hint agrees with the plain loop. Round 9: the six rpmbuild-made packages against an independent decoding."),
  "C08": ("; exhaustive enumeration of Signing implementations' read patterns and of same-source rewrite sequences", "Also: 3 packages x 4 keys x 7 ways a user-supplied Signing implementation consumes its reader (incl. detached signatures that never read) x {sign, sign_with_timestamp, build_and_sign}; one builder with 2-3 (4) with_file calls from one source path rewritten in between (4 contents x 2 mtimes, all sequences). An entry of each kind x sources with content x compressions x layouts (any recorded digest must match what is archived); signing objects whose recorded header digest is stale or foreign. Same destination for several with_file calls; flush() must reach the wrapped writer. Per-file arrays out of step, a wrong digest algorithm number or an archive entry count that differs from the file list are violations (no silent skips). Round 6: builder-made packages must carry all four digest kinds for every entry with content. Round 8: sources of 16 B .. 8 MiB rewritten, truncated, extended, removed or replaced between with_file and build."),
- "C10": ("", "Also: failed signing attempts (signer returns an error / garbage; protected key without or with a wrong passphrase) must leave the package unchanged; write+parse through 3-byte reads; five keys in the verify matrix. Start states also: foreign assets with each family of signature tags alone, and library-signed packages re-encoded to the header-only RSA/DSA tag layout (254 states quick). Signing operations with valid signatures in foreign subpacket layouts (by primary key or subkey). A sub-check signs with Ed25519 keys generated from fixed seeds (every id with a leading zero digit or a zero byte among them) and requires the full 16-digit key id. Round 6: generated keys with a five-year validity period; main headers of 64 KiB .. 32 MiB (128 MiB). Round 7: 30 payload layouts through one sign / write+parse / re-sign / clear history; every certificate of every key file as a signer. Round 8: 1 536 (8 192) signatures per elliptic-curve key and 24 (512) RSA signatures, incl. the shorter integer encodings."),
+ "C10": ("", "Also: failed signing attempts (signer returns an error / garbage; protected key without or with a wrong passphrase) must leave the package unchanged; write+parse through 3-byte reads; five keys in the verify matrix. Start states also: foreign assets with each family of signature tags alone, and library-signed packages re-encoded to the header-only RSA/DSA tag layout (254 states quick). Signing operations with valid signatures in foreign subpacket layouts (by primary key or subkey). A sub-check signs with Ed25519 keys generated from fixed seeds (every id with a leading zero digit or a zero byte among them) and requires the full 16-digit key id. Round 6: generated keys with a five-year validity period; main headers of 64 KiB .. 32 MiB (128 MiB). Round 7: 30 payload layouts through one sign / write+parse / re-sign / clear history; every certificate of every key file as a signer. Round 8: 1 536 (8 192) signatures per elliptic-curve key and 24 (512) RSA signatures, incl. the shorter integer encodings. Round 9: state bound of the search (40 000 / 400 000): a history that leaves traces is reported, not run into the memory cap."),
  "C11": ("", "Also: 10 configurations incl. zoned chrono source dates; 256 seeds in the quick tier; cpio entry mtimes. Fresh processes under every single deviation from the default environment (TZ, SOURCE_DATE_EPOCH, locale, account variables, working directory, TMPDIR, umask); duplicate dependencies; 20 000 seeds in the thorough tier. Process history: earlier builds in the same process under a wall clock before / after the source date. Configurations with several optional rpmlib features (zstd + capabilities + large files). Round 7: a configuration with several members of everything (multi-clause capability texts, six dependencies per kind, all scriptlets). Round 8: a builder started from PackageBuilder::default()."),
- "C12": ("", "Current alphabet: 450 single entries (5 directory names x 10 base names x 9 kinds), pairs over 162 (quick) / all (thorough), each as newc and as stripped (large-file) archive; the snapshot compares content, type and permission bits. Dangling-link kind (500 singles, pairs over 189 / all), relative destinations, umask 022/077/000, hidden-name twins; scratch on a memory file system. Thorough: all ordered triples over the reduced alphabet (6.75 M) plus a 60-entry core in both layouts. Benign packages with destinations not in their shortest form, tail-related paths, case variants. Round 6: destination through a symbolic link above the target and a target that exists already and holds outward links; pairs into the relative destination; links outside the target under the alphabet's names; packaged directories that hold packaged entries. Round 7: each of 20 per-file tags of either header replaced by arrays of 0, 1, n-1, n+1, 2n+3 items (no panic, nothing outside)."),
+ "C12": ("", "Current alphabet: 450 single entries (5 directory names x 10 base names x 9 kinds), pairs over 162 (quick) / all (thorough), each as newc and as stripped (large-file) archive; the snapshot compares content, type and permission bits. Dangling-link kind (500 singles, pairs over 189 / all), relative destinations, umask 022/077/000, hidden-name twins; scratch on a memory file system. Thorough: all ordered triples over the reduced alphabet (6.75 M) plus a 60-entry core in both layouts. Benign packages with destinations not in their shortest form, tail-related paths, case variants. Round 6: destination through a symbolic link above the target and a target that exists already and holds outward links; pairs into the relative destination; links outside the target under the alphabet's names; packaged directories that hold packaged entries. Round 7: each of 20 per-file tags of either header replaced by arrays of 0, 1, n-1, n+1, 2n+3 items (no panic, nothing outside). Round 9: entries of one path with contents of different lengths: the extracted file holds one of them."),
  "C13": ("", "Also: numeric segments at the u32/i64/u64/u128 boundaries x leading zeros, epochs with leading zeros. Unicode numerics/letters that rpm treats as separators; EVRs from components containing '-' and ':'. Operands borrowed from one buffer (all substrings of 8 buffers). rpm_evr_compare strings of <= 5 (6) characters. Round 6: runs of 1 000 / 30 000 / 300 000 markers, digits, letters and separators in worker processes (a stack overflow is the violation). Round 7: every Unicode scalar value except NUL in eight roles; NEVRA pairs with rpm-equal but textually different names and architectures. Round 8: runs of letters, digits and zeros of every length 1..40, 63..65, 127..129, 255..257."),
- "C14": ("", "Current bounds: <= 2 (3) deviating answers; plain and vectored writes; subjects whose stores end with each entry type. Refill (and Interrupted) at every byte offset of the metadata (1-, 3-, 8-byte default buffers); path-based I/O incl. named pipes. Sinks behind adapters (holding sinks, BufWriters, the public Sha256Writer): after write()+flush() the destination holds the canonical bytes. Inputs that are not well formed (an item running over its data section) must get the same verdict from a slice, a BufReader and sources delivering 1..1000 bytes per call. Round 6: sinks that are full after n bytes (Ok(0) for ever) must produce an error, not a loop. Round 8: subjects without a single payload byte."),
+ "C14": ("", "Current bounds: <= 2 (3) deviating answers; plain and vectored writes; subjects whose stores end with each entry type. Refill (and Interrupted) at every byte offset of the metadata (1-, 3-, 8-byte default buffers); path-based I/O incl. named pipes. Sinks behind adapters (holding sinks, BufWriters, the public Sha256Writer): after write()+flush() the destination holds the canonical bytes. Inputs that are not well formed (an item running over its data section) must get the same verdict from a slice, a BufReader and sources delivering 1..1000 bytes per call. Round 6: sinks that are full after n bytes (Ok(0) for ever) must produce an error, not a loop. Round 8: subjects without a single payload byte. Round 9: three small rpmbuild-made subjects; sink-answer exploration also through Sha256Writer (digest = digest of what reached the sink)."),
  "C15": ("", "Also: epochs up to and beyond u32::MAX; texts of length 3..4096 with a multi-byte character straddling each power-of-two boundary. Names containing the package's own version / release / arch / '-V-R.A' text. The empty architecture; equality judged with == and cmp in both operand orders. Components given as owned and as borrowed strings. Round 6: rpm's compressor vocabulary as no-panic input; Display under width / precision / fill / alignment options still parses back. Round 7: zero-padded numeric segments, EVRs without a release, every Unicode scalar value inside the components. Round 8: values from Default::default()."),
- "C16": ("", "Also: the public Header API (clear, new_empty, clear_signatures); entries behind the immutable region; the bytes written to 1-, 3- and 4096-byte plain and vectored sinks equal those written to a Vec. Unknown type numbers; path-based entry points on assets and corpus. Every data type in two-entry indexes of both headers. Headers without index entries, truncations of a region-less package, every lead field. Round 6: section edges as for C01; 128 packages straight from the builder (ordinary and large-file layout): archive magic number at the reported payload offset, payload length equals the in-memory payload. Round 7: the geometry of one entry, as for C01. Round 8: entry counts as for C01; headers overwritten in place with another package's (clone_from)."),
+ "C16": ("", "Also: the public Header API (clear, new_empty, clear_signatures); entries behind the immutable region; the bytes written to 1-, 3- and 4096-byte plain and vectored sinks equal those written to a Vec. Unknown type numbers; path-based entry points on assets and corpus. Every data type in two-entry indexes of both headers. Headers without index entries, truncations of a region-less package, every lead field. Round 6: section edges as for C01; 128 packages straight from the builder (ordinary and large-file layout): archive magic number at the reported payload offset, payload length equals the in-memory payload. Round 7: the geometry of one entry, as for C01. Round 8: entry counts as for C01; headers overwritten in place with another package's (clone_from). Round 9: every entry count from 0 to 1100."),
  "C17": ("", "Also: pairs of destinations naming the same payload path in two spellings; levels with high bits set (>= 256). Every ordered pair of 164 acceptable destinations; sources of every kind (mtimes 1901..9999, directories, missing paths, dangling / looping links, mode 000, kernel files). Every link-target string of <= 5 (7) tokens at links of three depths. Source names that are not valid UTF-8; FileMode values written with their public fields. Round 6: destinations of 4088..4100 and 255..65 536 bytes in both layouts. Round 7: every Unicode scalar value (quick: BMP) in destinations and metadata texts; scriptlet interpreter lists; 660 destinations around 22 specially treated directories. Round 8: capability tokens cap_, E, P, _v2 judged by the grammar; PackageBuilder::default() finished in five ways."),
  "C19": ("", "Also: every string of <= 6 (7) of 12 characters and <= 5 (6) of 16 characters incl. Unicode white space; long names and many clauses. All 41 capability names in three spellings with five near misses each; FileOptions::caps before / after / around 15 other setters. Letters replaced by characters whose Unicode case mapping is that letter (found and fixed: to_uppercase accepted cap_ſetuid). Round 6: line breaks in the alphabet; texts with leading / trailing white space through a built package. Round 7: every Unicode scalar value in nine roles of a capability text. Round 8: tokens cap_, E, P; near misses with doubled prefixes and extended names."),
- "C09": ("", "Also: in every state of the sign/clear histories, a signing attempt that fails (what the failed call leaves behind must still be a valid package); kernel-backed sources. Round 6: the public SignatureHeaderBuilder driven through every sequence of <= 4 (5) calls (no legacy tag twice; one OpenPGP string per live signature). Round 7: each scriptlet kind x every interpreter list of <= 3 words incl. empty words and the <lua> marker. Round 8: builders started from PackageBuilder::default()."),
+ "C09": ("", "Also: in every state of the sign/clear histories, a signing attempt that fails (what the failed call leaves behind must still be a valid package); kernel-backed sources. Round 6: the public SignatureHeaderBuilder driven through every sequence of <= 4 (5) calls (no legacy tag twice; one OpenPGP string per live signature). Round 7: each scriptlet kind x every interpreter list of <= 3 words incl. empty words and the <lua> marker. Round 8: builders started from PackageBuilder::default(). Round 9: LEAD-6, the lead's package type agrees with the header's source marker."),
  "C18": ("", "Constructor results are compared as values (==, Debug, public fields), not only through accessors. Out-of-range results must not equal or hash like the valid mode sharing their low 16 bits. Mode words through the builder (16 type nibbles x 7 permission patterns x {alone, link target, capabilities}); special bits inherited from source files. Round 6: the word in the cpio entry equals the given word for all type nibbles; st_mode of extracted files and directories (incl. a directory that holds packaged entries) equals the packaged word. Round 8: the integer an Invalid value carries (field and error); i32 and u16 spellings of a word give the same value."),
- "C20": ("", "Also: chrono's leap-second representation (ordering clauses only); with_file on real files with 12 boundary mtimes x 4 sub-second offsets incl. error kinds and recorded values. with_file through build(), build_and_sign() and with a far-future source date configured first. Round 6: logarithmic far-future grid, sub-second parts that are multiples of 2^63 / 2^64 units, a zone with an offset transition. Round 7: changelog times x source dates and OpenPGP signature creation times x key creation (recorded-instants). Round 8: changelog sequences with a member outside the range."),
+ "C20": ("", "Also: chrono's leap-second representation (ordering clauses only); with_file on real files with 12 boundary mtimes x 4 sub-second offsets incl. error kinds and recorded values. with_file through build(), build_and_sign() and with a far-future source date configured first. Round 6: logarithmic far-future grid, sub-second parts that are multiples of 2^63 / 2^64 units, a zone with an offset transition. Round 7: changelog times x source dates and OpenPGP signature creation times x key creation (recorded-instants). Round 8: changelog sequences with a member outside the range. Round 9: the two kinds of failed conversion are told apart (value, Debug, text of rpm::Error); an out-of-range source date is not accepted silently."),
 }
 
 NOT_YET = {}
